@@ -252,6 +252,21 @@ def gen_judge(case, impl, wd):
         off += size
     if len(g.nodes) != off:
         bad.append(f"{len(g.nodes)} residues, the sequence of macros states {off}")
+        return bad
+    # residue names: the macro's residue, except termini (degree 1 in the whole molecule) of renamed blocks
+    want = []
+    for idx, (t, size) in enumerate(zip(case['sequence'], case['sizes'])):
+        res = next(m for m in case['macros'] if m[0] == t)[3]
+        want += [res] * size
+    starts = [sum(case['sizes'][:i]) for i in range(len(case['sizes']))]
+    for i, newname in case['mods']:
+        for kk in range(starts[i], starts[i] + case['sizes'][i]):
+            if g.degree(kk) == 1:
+                want[kk] = newname
+    got = [g.nodes[kk].get('resname') for kk in range(off)]
+    if got != want:
+        kk = next(i for i in range(off) if got[i] != want[i])
+        bad.append(f"residue {kk + 1} is named {got[kk]}, the specification (macros + terminal renaming) states {want[kk]}")
     return bad
 
 
